@@ -52,6 +52,10 @@ where
 
         self.verify_rumor_author(&rumor.pubkey, sender_credential)?;
 
+        // A pre-set id must be the NIP-01 hash of the rumor's own fields. Otherwise a member
+        // could file its message under the id of somebody else's message and overwrite it.
+        rumor.verify_id()?;
+
         let rumor_id: EventId = rumor.id();
 
         let processed_message = super::create_processed_message_record(
